@@ -36,8 +36,14 @@ class C19(flow.Spec):
             "threads hammer the destination while the restore runs. Checked: crsql_changes incl. site ids of backup and of the "
             "restored database == source's; backup has no ordinal 0 and no member rows; kept actor id is ordinal 0 afterwards; "
             "crsql_site_id and every clock row's ordinal == the Coq model's prediction; every successful read during the "
-            "restore is the old or the new content. non-trivial = distinct (history, destination, keep) combinations")
+            "restore is the old or the new content. Plus `walread`: reader connections inside read transactions on up to four "
+            "different snapshots of a live WAL destination (so on read marks 1..4), or on a rollback-journal one, any subset of "
+            "them still inside when the real restore runs in another process: each read transaction must see both tables from "
+            "the same generation or be refused, the restore must wait exactly when the lock-table model (lock calls generated "
+            "from sqlite3_restore.rs) says lock_all is refused, and the destination ends entirely new (or untouched if the "
+            "restore failed). non-trivial = distinct (history, destination, keep) combinations")
     assumptions = ["PARTIAL for the locked copy: fcntl/shm semantics, std::io::copy and what SQLite reader connections do after the file changed under them are runtime behaviour sampled by reader threads, the model has the lock table only",
+                   "SQLite gives the k-th reader on a new snapshot read mark k (walTryBeginRead takes the first mark it can lock exclusively); checked by the model/real agreement on which readers make the restore wait",
                    "the snapshot given to restore was produced by `backup` (no ordinal-0 row): necessary, see restore_with_self_row_refuted",
                    "the parent directory of the backup path exists (the command creates it only after VACUUM INTO needed it)"]
 
@@ -67,9 +73,19 @@ class C19(flow.Spec):
             keep = 1 if (dest in (2, 4) and rnd.random() < 0.7) else 0
             tags.add("dest-%d" % dest); tags.add("keep-%d" % keep)
             out.append(("backup %d %s %d %d 3" % (len(ops), " ".join(ops), dest, keep), tags))
+        # readers inside a read transaction on n different snapshots (WAL: n different read marks)
+        combos = [(n, m, 1) for n in (1, 2, 3, 4) for m in range(0, 1 << n)] + [(1, 1, 0), (1, 0, 0), (2, 3, 0), (2, 2, 0)]
+        rnd.shuffle(combos)
+        K = 10 if tier == "quick" else len(combos)
+        # the youngest reader alone on each mark is always there: these are the windows a missing lock opens
+        must = [(1, 1, 1), (2, 2, 1), (3, 4, 1), (4, 8, 1), (1, 1, 0)]
+        for (n, m, w) in must + [c for c in combos if c not in must][:max(0, K - len(must))]:
+            out.append(("walread %d %d %d" % (n, m, w), {"reader-in-transaction", "wal" if w else "rollback-journal", "held-%d" % bin(m).count("1")}))
         return out
 
     def model_lines(self, case, impl_obs):
+        if case.startswith("walread"):
+            return ["walm " + case.split(" ", 1)[1]]
         d = parse(impl_obs)
         if not d or "src" not in d or "dst" not in d:
             return []
@@ -87,6 +103,14 @@ class C19(flow.Spec):
         return ["backupm %d %s %d %s %s %d" % (len(src), " ".join("%d %d" % (o, names[x]) for o, x in src), len(clock), " ".join(clock), d["src"]["seq"], keep_id)]
 
     def agree(self, case, impl_obs, model_obs):
+        if case.startswith("walread"):
+            f = dict(re.findall(r"(\w+)=(\S*)", impl_obs))
+            if "early" not in f:
+                return False
+            if case.split()[2] == "0":
+                return True            # nobody inside: nothing to wait for
+            # lock_all gets through in the model <=> the real restore finished while a reader was inside
+            return (f["early"] == "1") == ("blocked=0" in model_obs)
         d = parse(impl_obs)
         if not d or "dst" not in d:
             return False
@@ -118,6 +142,21 @@ class C19(flow.Spec):
         return True
 
     def impl_verdict(self, case, impl_obs):
+        if case.startswith("walread"):
+            f = dict(re.findall(r"(\w+)=(\S*)", impl_obs))
+            if "rc" not in f:
+                return False
+            for r in [x for x in f.get("readers", "").split(",") if x]:
+                t1, t2 = r.split(":")[1].split("/")
+                if t2 != "E" and t1 != t2:
+                    return False       # one read transaction saw part old, part new
+                if len(t1) != 1 or (t2 != "E" and len(t2) != 1):
+                    return False
+            if f["rc"] == "0" and f.get("final") != "nn":
+                return False
+            if f["rc"] != "0" and f.get("final") != "oo":
+                return False           # a failed restore must leave the destination untouched
+            return None
         d = parse(impl_obs)
         if not d:
             return False
